@@ -16,11 +16,11 @@ PROPS["C11"] = dict(
     level="other",
     functions=_DER_TLV + ["ecdsa.der.read_number", "ecdsa.der.encode_number", "ecdsa.der.encode_oid", "ecdsa.der.remove_object"],
     lemmas=["der.roundtrip_length", "der.roundtrip_integer", "der.roundtrip_octet_string", "der.roundtrip_sequence",
-            "der.roundtrip_constructed", "der.roundtrip_bitstring", "der.roundtrip_number"],
+            "der.roundtrip_constructed", "der.roundtrip_bitstring", "der.roundtrip_number", "der.read_number_canonical"],
     bounded=[dict(function=q, role="CPython cross-check of a proved contract", bound="structured DER corpus (spec.domains.der_strings)")
              for q in _DER_TLV] +
             [dict(function="ecdsa.der.encode_number", role="CPython cross-check of a proved contract", bound="n in 0..3000 (quick) / 20000 (thorough) + 2^(7k)+-1, 2^64, 2^70, 10^30")] +
-            [dict(function="ecdsa.der.remove_object", label="OBJECT IDENTIFIER codec against the X.690 spec encoders", role="bounded stand-in for the parts of the OID codec that are not discharged: encode_oid beyond six arcs, the round trip of whole OIDs (the round trip of one sub-identifier, read_number(encode_number(n) ++ rest) == (n, len), is a discharged lemma with an explicit induction), and remove_object's clause `consumed bytes == canonical encoding of the returned arcs` (needs uniqueness of base-128 numerals, an induction). Discharged deductively: encode_number == the X.690 sub-identifier in closed form (digits of n // 128^k, minimal, continuation bits) for every n >= 0, and == spec.der.subid(n); encode_oid == 06 || enc_len || subid(40 first + second) || subid(arc)... for every OID of 2 to 6 arcs (AssertionError exactly for first/second outside the X.690 ranges); read_number (canonical structure, value, UnexpectedDER exactly when no canonical sub-identifier starts the string); remove_object (UnexpectedDER is the only exception, the remainder is the suffix after a 0x06 TLV with a non-empty body, arcs in the X.690 ranges)",
+            [dict(function="ecdsa.der.remove_object", label="OBJECT IDENTIFIER codec against the X.690 spec encoders", role="bounded stand-in for the parts of the OID codec that are not discharged: encode_oid beyond six arcs, the round trip of whole OIDs (the round trip of one sub-identifier, read_number(encode_number(n) ++ rest) == (n, len), and the canonical form of what read_number accepts, string[:llen] == subid(number), are discharged lemmas with explicit inductions), and remove_object's clause `consumed bytes == canonical encoding of the returned arcs` (needs uniqueness of base-128 numerals, an induction). Discharged deductively: encode_number == the X.690 sub-identifier in closed form (digits of n // 128^k, minimal, continuation bits) for every n >= 0, and == spec.der.subid(n); encode_oid == 06 || enc_len || subid(40 first + second) || subid(arc)... for every OID of 2 to 6 arcs (AssertionError exactly for first/second outside the X.690 ranges); read_number (canonical structure, value, UnexpectedDER exactly when no canonical sub-identifier starts the string); remove_object (UnexpectedDER is the only exception, the remainder is the suffix after a 0x06 TLV with a non-empty body, arcs in the X.690 ranges)",
                   bound="sub-identifiers 0..20000 (quick) / 300000 (thorough) + 2^(7k)+-1, 2^64, 2^70, 10^30, 300 random up to 90 bits; 180 structured OIDs (first arcs at the 39/40/47/48 boundaries, arcs up to 2^70) (+3000 random, thorough) x remainders; every single-byte substitution / insertion / truncation, non-minimal length, padded sub-identifier and length overrun of each canonical encoding must be rejected with UnexpectedDER or be canonical itself",
                   run=_c11_oid)],
     min_obligations=30,
